@@ -75,7 +75,15 @@ def parts(tier):
                shards=16, timeout=170, path_timeout=30),
             CH("roots", "vflib.props.c03:scen_roots", {}, shards=10, timeout=170, path_timeout=30),
         ]
-    return []
+    from vflib import progsym
+    return [
+        CH("k1k2", "vflib.props.c03:scen_load", {"pool": "KEY_POOL_FULL", "styled": "k1k2", "templates": progsym.TEMPLATES_FULL}, shards=16, timeout=2400, path_timeout=30),
+        CH("k3", "vflib.props.c03:scen_load", {"pool": "KEY_POOL_FULL", "styled": "k3", "options": True, "templates": progsym.TEMPLATES_FULL},
+           shards=16, timeout=1500, path_timeout=30),
+        CH("k1k2k3", "vflib.props.c03:scen_load", {"pool": "KEY_POOL_QUICK", "styled": "all", "templates": ["nested_object", "list_of_objects"],
+                                                   "frameworks": ["pydantic", "dataclasses"]}, shards=16, timeout=2400, path_timeout=30),
+        CH("roots", "vflib.props.c03:scen_roots", {}, shards=10, timeout=600, path_timeout=30),
+    ]
 
 
 META = {
@@ -85,7 +93,7 @@ META = {
                           "ModelPtr.to_typing_code / AbsoluteModelRef", "compose_models / compose_models_flat", "sort_fields",
                           "ModelRegistry.generate_names / fix_name_duplicates", "ModelMeta.generate_name"],
     "symbolic_on_path": ["two styled keys from the pool (or the key that names a nested model)", "structural template", "framework", "layout", "option bits"],
-    "bounds": {"quick": "24-key pool, all unordered pairs for two root keys x 4 templates x 5 frameworks x 2 layouts; every pool key as nested-model key x 3 templates x options"},
+    "bounds": {"thorough": "62-key pool: all pairs x 7 templates x 5 frameworks x 2 layouts; every key as nested-model key x options; all triples of the 24-key pool x 2 templates x 2 frameworks", "quick": "24-key pool, all unordered pairs for two root keys x 4 templates x 5 frameworks x 2 layouts; every pool key as nested-model key x 3 templates x options"},
     "outside_claim": ["keys outside the pool (unidecode/inflection/regex realise symbolic strings; no SMT model of them)", "nested layout for non-tree graphs (excluded by the property)"],
     "assumptions": ["sqlmodel is the stub package /verif/stubs/sqlmodel"],
 }
